@@ -14,7 +14,11 @@ impl PartialEq for Number {
     fn eq(&self, other: &Self) -> bool {
         // Relative to the larger magnitude, so that `a == b` is `b == a`.
         let (a, b) = (self.value, other.value);
-        a == b || (a - b).abs() <= f64::EPSILON * a.abs().max(b.abs())
+        let diff = (a - b).abs();
+        // An infinite difference is never within tolerance.
+        a == b
+            || (diff.is_finite()
+                && diff <= f64::EPSILON * a.abs().max(b.abs()))
     }
 }
 impl Eq for Number {}
